@@ -4,6 +4,7 @@ Everything a registered check needs lives under /verif; scratch data goes to
 /verif/.build/run/<tag>/ and is removed at the end of the run.
 """
 import fcntl
+import fnmatch
 import hashlib
 import json
 import os
@@ -384,9 +385,11 @@ class Check:
         self.tlc_runs.append(r.summary())
 
     def known(self, key):
-        """Return the open finding whose key equals `key`, if any."""
+        """Return the open finding whose key equals `key` (or, for a finding whose key
+        contains '*', matches it as a shell-style pattern), if any."""
         for f in self.findings:
-            if f.get("key") == key:
+            k = f.get("key", "")
+            if k == key or ("*" in k and fnmatch.fnmatchcase(key, k)):
                 return f
         return None
 
@@ -395,7 +398,7 @@ class Check:
         identifies it for the known-findings file."""
         f = self.known(key)
         if f is not None:
-            self.findings_seen[key] = self.findings_seen.get(key, 0) + 1
+            self.findings_seen[f["key"]] = self.findings_seen.get(f["key"], 0) + 1
             return False
         self.violations.append(dict(key=key, what=what, replay=replay_payload))
         return True
@@ -445,6 +448,13 @@ class Check:
             for v in self.violations:
                 allk[v["key"]] = allk.get(v["key"], 0) + 1
             log("[%s] %d violating cases in %d classes" % (self.prop, len(self.violations), len(allk)))
+            if os.environ.get("NV_TRIAGE"):
+                first = {}
+                for v in self.violations:
+                    first.setdefault(v["key"], dict(count=0, what=str(v["what"])[:600]))
+                    first[v["key"]]["count"] += 1
+                with open(os.environ["NV_TRIAGE"], "w") as fh:
+                    json.dump(first, fh, indent=1)
             if os.environ.get("NV_CLASSES"):
                 for k in sorted(allk):
                     log("  CLASS %6d %s" % (allk[k], k[:200]))
